@@ -4,7 +4,7 @@ LEAN_EXTRA = ["PyXABProofs.Props.C06", "PyXABProofs.Props.C08", "PyXABProofs.Pro
 budget, explore, search, replay = make("C01", ALGOS, quick_per_algo=15, thorough_per_algo=100, salt=100)
 RULE = ("the documented pull/receive loop on all 14 real classes (wrappers over each base learner): algorithm x partition class "
         "(K 2..5) x dimension 1..3 x seven box shapes x documented parameter ranges x ten reward modes x five split-fraction modes, "
-        "20..150 rounds (StroquOOL: its full budget), each call under a wall-clock budget (a hang is reported, never a stuck check); "
+        "20..150 rounds (StroquOOL: its full budget), each call under a CPU-time budget (a hang is reported, never a stuck check); "
         "every returned point must be a d-vector of finite floats inside the box, no call may raise or return None; every call is "
         "also compared with the Lean model (error enum included); configurations outside the quantifier (depth cap < rounds) are "
         "counted separately; non-trivial = >= 3 rounds completed; distinct = distinct configuration+history")
